@@ -24,7 +24,16 @@ func main() {
 	verifd := flag.String("verif", "/verif", "verif root")
 	list := flag.Bool("list", false, "list properties")
 	dumpAnchors := flag.String("dump-anchors", "", "write the anchor record of the current tree to this file and exit")
+	mech := flag.String("mechref", "", "apply this mechanical behaviour-preserving rewrite to the Go files below -repo (a scratch copy, never /repo) and exit")
 	flag.Parse()
+	if *mech != "" {
+		if *repo == "/repo" {
+			fmt.Fprintln(os.Stderr, "-mechref rewrites files in place: give a scratch copy with -repo")
+			os.Exit(2)
+		}
+		fmt.Println("rewritten statements:", mechRewrite(*mech, *repo))
+		return
+	}
 	if *list {
 		var ids []string
 		for k := range props {
